@@ -336,6 +336,204 @@ func c20WitnessForeignBusy(t *testing.T, progPath string) map[string]string {
 	return out
 }
 
+
+// ---------------------------------------------------------------- a whole reload under a clock
+//
+// c20Chain runs, in one synctest bubble and on ONE manager, the production sequence of one or two
+// reloads with the real functions on the request's way: queueReloadRequest (the request carries
+// requestedAt = time.Now() and the abort marker taken at dispatch) → d1 in the queue → the worker's
+// receive + coalesceReloadRequest → d2 (config load, prepare) → setPendingReloadMetadata /
+// setPendingStagedHandoff with the request's time → startControlPlaneRetirement (by the worker, or by
+// the run-state handler after the ready wait d3 for a staged hand-off) → waitReloadReadyOrSignal →
+// finishReloadSuccess → release goroutine; then a second signal `probe` after the hand-off finished
+// (refused "still retiring" / accepted), which becomes the second reload.  The old generation has a
+// live session that never ends unless the round says otherwise, so the retirement's completion time
+// shows which request time the real code used for the budget.
+
+type c20Round struct {
+	staged     bool
+	d1, d2, d3 time.Duration
+	overlap    bool
+	ends       []time.Duration
+}
+
+func (r c20Round) op(sfx string) string {
+	idle := c20RetCase{ends: r.ends}.idleAt()
+	if len(r.ends) == 0 {
+		idle = c20Never
+	}
+	return fmt.Sprintf("s%s=%s d1%s=%d d2%s=%d d3%s=%d o%s=%s n%s=%d i%s=%s", sfx, c20B(r.staged), sfx, int64(r.d1), sfx, int64(r.d2),
+		sfx, int64(r.d3), sfx, c20B(r.overlap), sfx, len(r.ends), sfx, c20Dur(idle))
+}
+
+type c20ChainRun struct {
+	m      *reloadManager
+	log    *logrus.Logger
+	timers []*time.Timer
+	dones  []<-chan struct{}
+}
+
+func (c *c20ChainRun) round(r c20Round) string { return c.roundWithHook(r, nil) }
+
+// roundWithHook: the request is in the queue; afterFinish (if any) is called when finishReloadSuccess has
+// returned; returns the observable outcome of the request's retirement (after it completed).
+func (c *c20ChainRun) roundWithHook(r c20Round, afterFinish func()) string {
+	m, log := c.m, c.log
+	time.Sleep(r.d1)
+	// worker: head of the loop body
+	req := <-m.reloadReqs
+	m.reloadActive.Store(true)
+	req = m.coalesceReloadRequest(req)
+	_ = setRunSignalProgress(consts.ReloadProcessing, "")
+	m.setReloadError(nil)
+	abort := c20RequestAbort(req)
+	time.Sleep(r.d2)
+	plane := control.VerifC20NewDrainPlane()
+	var retStart time.Time
+	doneAt := c20Never
+	startRet := func(ab, ov bool) {
+		c.timers = append(c.timers, c20OpenSessions(plane, r.ends)...)
+		retStart = time.Now()
+		m.startControlPlaneRetirement(log, plane, nil, func() {}, ab, ov)
+		m.mu.Lock()
+		done := m.pendingRetirementDone
+		m.mu.Unlock()
+		c.dones = append(c.dones, done)
+		go func() {
+			<-done
+			doneAt = time.Since(retStart)
+		}()
+	}
+	if r.staged {
+		m.setPendingStagedHandoff(&stagedReloadHandoff{abortConnections: abort, hasOverlap: r.overlap}, req.requestedAt, req.requestedAtMono)
+	} else {
+		m.clearPendingStagedHandoff()
+		m.clearPendingRetirement()
+		m.setPendingReloadMetadata(req.requestedAt, req.requestedAtMono)
+		startRet(abort, r.overlap)
+	}
+	m.beginHandoff()
+	notifyRunStateChange(m.runStateChanges)
+	// run-state handler
+	<-m.runStateChanges
+	m.reloading.Store(false)
+	ready := make(chan bool, 1)
+	c.timers = append(c.timers, time.AfterFunc(r.d3, func() { ready <- true }))
+	if res, _ := waitReloadReadyOrSignal(log, make(chan os.Signal), ready, reloadReadyTimeout); res != reloadReadyWaitReady {
+		if afterFinish != nil {
+			afterFinish()
+		}
+		return fmt.Sprintf("wait=%d", res)
+	}
+	if handoff := m.currentPendingStagedHandoff(); handoff != nil {
+		m.clearPendingStagedHandoff()
+		startRet(handoff.abortConnections, handoff.hasOverlap)
+	}
+	age := retStart.Sub(req.requestedAt)
+	_ = setRunSignalProgress(consts.ReloadDone, "OK")
+	m.finishReloadSuccess()
+	if afterFinish != nil {
+		afterFinish()
+	}
+	// the retirement's own completion time (watchdog: `never`)
+	wd := time.NewTimer(c20Watchdog)
+	select {
+	case <-c.dones[len(c.dones)-1]:
+	case <-wd.C:
+	}
+	wd.Stop()
+	synctest.Wait()
+	return fmt.Sprintf("age=%d done=%s aborted=%s", int64(age), c20Dur(doneAt), c20B(plane.VerifC20Aborted()))
+}
+
+func c20Chain(t *testing.T, dir string, mark bool, a c20Round, probe time.Duration, b *c20Round) (string, string) {
+	op := fmt.Sprintf("chain mark=%s %s probe=%d", c20B(mark), a.op("a"), int64(probe))
+	if b != nil {
+		op += " " + b.op("b")
+	} else {
+		op += " sb=x"
+	}
+	var res string
+	progPath := filepath.Join(dir, "dae.retire.progress")
+	synctest.Test(t, func(t *testing.T) {
+		c := &c20ChainRun{m: newReloadManager(make(chan reloadRequest, 1), make(chan struct{}, 1), nil), log: c20DiscardLog()}
+		m := c.m
+		outbounddialer.VerifC20ResetSuppression()
+		_ = os.Remove(AbortFile)
+		_ = writeSignalProgressFile(progPath, consts.ReloadDone, "")
+		defer func() {
+			// let every goroutine of this bubble finish
+			m.lastRetirementMu.Lock()
+			cancel := m.lastRetirementCancel
+			m.lastRetirementMu.Unlock()
+			if cancel != nil {
+				cancel()
+			}
+			for _, tm := range c.timers {
+				tm.Stop()
+			}
+			for _, d := range c.dones {
+				<-d
+			}
+			synctest.Wait()
+			_ = os.Remove(AbortFile)
+		}()
+		if mark {
+			if f, err := os.Create(AbortFile); err == nil {
+				_ = f.Close()
+			}
+		}
+		// dispatch of the main select (extracted: `takeabort queue:reload`, flow fact: requestedAt = time.Now())
+		if !m.queueReloadRequest(c.log, c20MkRequest(false, c20TakeAbort())) {
+			res = "first-request-refused"
+			return
+		}
+		// the round's clock starts when finishReloadSuccess returns; the retirement may take longer than the probe
+		type rr struct{ out string }
+		ch := make(chan rr, 1)
+		fin := make(chan struct{})
+		go func() {
+			// round() returns after the retirement completed; the probe must not wait for that
+			ch <- rr{c.roundWithHook(a, func() { close(fin) })}
+		}()
+		<-fin
+		time.Sleep(probe)
+		synctest.Wait()
+		pendingBefore := m.reloadPending.Load()
+		acc := m.queueReloadRequest(c.log, c20MkRequest(true, c20TakeAbort()))
+		pr := "lost"
+		switch {
+		case acc:
+			pr = "accepted"
+		case pendingBefore:
+			pr = "refused:" + c20ProgClass(progPath)
+		}
+		if b == nil || !acc {
+			fin1 := fmt.Sprintf("final=p=%s a=%s s=%d f=%s", c20B(m.reloadPending.Load()), c20B(m.reloadActive.Load()),
+				outbounddialer.VerifC20Suppression(), c20ProgClass(progPath))
+			outA := (<-ch).out
+			if b != nil {
+				res = outA + " probe=" + pr + " second=not-run"
+			} else {
+				res = outA + " probe=" + pr + " " + fin1
+			}
+			if acc {
+				// drain the accepted request so that nothing is left behind
+				<-m.reloadReqs
+				clearReloadPending(&m.reloadPending)
+			}
+			return
+		}
+		outA := (<-ch).out
+		outB := c.round(*b)
+		time.Sleep(reloadTotalSwitchBudget + 1)
+		synctest.Wait()
+		res = outA + " probe=" + pr + " second: " + outB + fmt.Sprintf(" final=p=%s a=%s s=%d f=%s", c20B(m.reloadPending.Load()),
+			c20B(m.reloadActive.Load()), outbounddialer.VerifC20Suppression(), c20ProgClass(progPath))
+	})
+	return op, res
+}
+
 func c20RetireStream(t *testing.T, st *VStats, r *VRand) int {
 	out := VOpenStream("c20ret")
 	defer out.Close()
@@ -528,6 +726,148 @@ func c20RetireStream(t *testing.T, st *VStats, r *VRand) int {
 		op, res := c20Retire(t, dir, c)
 		emit(op, res)
 		st.Inc("retire_random")
+	}
+
+	// (d) whole reloads under a clock (one or two on the same manager)
+	nev := []time.Duration{c20Never}
+	var chains []struct {
+		mark  bool
+		a     c20Round
+		probe time.Duration
+		b     *c20Round
+	}
+	addChain := func(mark bool, a c20Round, probe time.Duration, b *c20Round) {
+		chains = append(chains, struct {
+			mark  bool
+			a     c20Round
+			probe time.Duration
+			b     *c20Round
+		}{mark, a, probe, b})
+	}
+	expDone := func(r c20Round, mark bool) time.Duration {
+		age := r.d1 + r.d2
+		if r.staged {
+			age += r.d3
+		}
+		d := total - age
+		if d < 0 || mark || !r.overlap || len(r.ends) == 0 {
+			d = 0
+		}
+		if idle := (c20RetCase{ends: r.ends}).idleAt(); len(r.ends) > 0 && idle != c20Never && idle < d {
+			d = idle
+		}
+		return d
+	}
+	for _, staged := range []bool{false, true} {
+		for _, d1 := range []time.Duration{0, time.Millisecond, 2 * time.Second} {
+			for _, d2 := range []time.Duration{0, 3 * time.Second, total - 2*time.Second - time.Millisecond - 1, total - 2*time.Second, total + time.Second} {
+				for _, d3 := range []time.Duration{0, 700 * time.Millisecond, 4*time.Second + 3} {
+					a := c20Round{staged: staged, d1: d1, d2: d2, d3: d3, overlap: true, ends: nev}
+					e := expDone(a, false)
+					// the retirement must not complete exactly when the ready wait ends / the probe comes
+					if !staged && e == d3 {
+						continue
+					}
+					rest := e
+					if !staged {
+						rest = e - d3
+					}
+					if rest > 2*time.Millisecond {
+						addChain(false, a, rest/2, nil)
+					}
+					if rest < 0 {
+						rest = 0
+					}
+					b := c20Round{staged: !staged, d1: d3, d2: d1 + time.Second, d3: 100 * time.Millisecond, overlap: true, ends: nev}
+					addChain(false, a, rest+time.Second, &b)
+				}
+			}
+		}
+	}
+	// abort marker, no overlap, sessions that end early, no session
+	for _, staged := range []bool{false, true} {
+		base := c20Round{staged: staged, d1: time.Millisecond, d2: 2 * time.Second, d3: 300 * time.Millisecond, overlap: true, ends: nev}
+		b := c20Round{staged: staged, d1: 5, d2: time.Second, d3: 7, overlap: true, ends: nev}
+		addChain(true, base, time.Second, &b) // -a: the old generation is aborted at once; the next request's is not
+		x := base
+		x.overlap = false
+		addChain(false, x, time.Second, nil)
+		x = base
+		x.ends = []time.Duration{time.Second, 2500 * time.Millisecond}
+		addChain(false, x, time.Second, nil)
+		addChain(false, x, 4*time.Second, &b)
+		x = base
+		x.ends = nil
+		addChain(false, x, time.Second, &b)
+	}
+	cstride := 1
+	if !VThorough() {
+		cstride = 2
+	}
+	coff := r.Intn(cstride)
+	for i, c := range chains {
+		if c.mark || c.b == nil || (i+coff)%cstride == 0 {
+			op, res := c20Chain(t, dir, c.mark, c.a, c.probe, c.b)
+			emit(op, res)
+			if c.b != nil {
+				st.Inc("chain_two_reloads")
+			}
+			if c.a.staged {
+				st.Inc("chain_staged")
+			}
+			if strings.Contains(res, "probe=refused:busyRetiring") {
+				st.Inc("chain_probe_refused_retiring")
+			}
+			if strings.Contains(res, "probe=accepted") {
+				st.Inc("chain_probe_accepted")
+			}
+			if c.mark {
+				st.Inc("chain_abort_marker")
+			}
+		}
+	}
+	// random chains
+	nrc := 40
+	if VThorough() {
+		nrc = 400
+	}
+	for i := 0; i < nrc; i++ {
+		rd := func(max time.Duration) time.Duration { return time.Duration(r.Intn(int(max/time.Millisecond))) * time.Millisecond }
+		mk := func() c20Round {
+			x := c20Round{staged: r.Intn(2) == 0, d1: rd(2 * time.Second), d2: rd(12 * time.Second), d3: rd(5*time.Second) + 1, overlap: r.Intn(5) != 0, ends: nev}
+			switch r.Intn(5) {
+			case 0:
+				x.ends = nil
+			case 1:
+				x.ends = []time.Duration{rd(12*time.Second) + 3}
+			}
+			return x
+		}
+		a := mk()
+		mark := r.Intn(6) == 0
+		e := expDone(a, mark)
+		rest := e
+		if !a.staged {
+			rest = e - a.d3
+		}
+		if rest < 0 {
+			rest = 0
+		}
+		var probe time.Duration
+		var b *c20Round
+		if r.Intn(2) == 0 && rest > 4*time.Millisecond {
+			probe = rest/2 + 1
+		} else {
+			probe = rest + time.Duration(1+r.Intn(3000))*time.Millisecond + 7
+			bb := mk()
+			b = &bb
+		}
+		if !a.staged && (e == a.d3) {
+			continue
+		}
+		op, res := c20Chain(t, dir, mark, a, probe, b)
+		emit(op, res)
+		st.Inc("chain_random")
 	}
 	return n
 }
